@@ -198,6 +198,8 @@ class BufGen:
                 del self.scope[-2:]
                 return node
             node["body"] = self.stmts(r.randint(1, 3), depth + 1, ivs + [iv], True)
+            if p.get("while_loops") and r.random() < p["while_loops"]:
+                node["as_while"] = True  # the same counted loop written as scf.while
             return node
         if p.get("exec_region") and r.random() < p["exec_region"]:
             # scf.execute_region with unstructured control flow inside: entry -> (cond ? bb1 : bb2); bb1 -> bb2; bb2 -> yield
@@ -365,6 +367,17 @@ def emit(ast) -> str:
                 stmts(ind + 1, s["body"])
                 e(ind + 1, f"scf.yield {nxt}, {cur} : {T1}, {T1}")
                 e(ind, "}")
+            elif k == "for" and s.get("as_while"):
+                iv = s["iv"]
+                e(ind, f'{iv}_end = scf.while ({iv}_a = {s["lb"]}) : (index) -> (index) {{')
+                e(ind + 1, f'{iv}_c = arith.cmpi slt, {iv}_a, {s["ub"]} : index')
+                e(ind + 1, f"scf.condition({iv}_c) {iv}_a : index")
+                e(ind, "} do {")
+                e(ind, f"^bb0({iv} : index):")
+                stmts(ind + 1, s["body"])
+                e(ind + 1, f'{iv}_n = arith.addi {iv}, {s["step"]} : index')
+                e(ind + 1, f"scf.yield {iv}_n : index")
+                e(ind, "}")
             elif k == "for":
                 e(ind, f'scf.for {s["iv"]} = {s["lb"]} to {s["ub"]} step {s["step"]} {{')
                 stmts(ind + 1, s["body"])
@@ -497,6 +510,8 @@ def shrink_body(body):
                     yield body[:i] + [dict(s, **{key: nb})] + body[i + 1 :]
         if k == "gen" and len(s["ins"]) > 1:
             yield body[:i] + [dict(s, ins=s["ins"][:1])] + body[i + 1 :]
+        if k == "for" and s.get("as_while"):
+            yield body[:i] + [{kk: vv for kk, vv in s.items() if kk != "as_while"}] + body[i + 1 :]
         if k == "gen" and s.get("lut"):
             yield body[:i] + [{kk: vv for kk, vv in s.items() if kk != "lut"}] + body[i + 1 :]
         if k == "op" and s["args"]:
